@@ -173,6 +173,49 @@ func cmdCheck(args []string) int {
 			for _, e := range ur.Errs {
 				engineErrs = append(engineErrs, k+": "+e)
 			}
+			if len(c.NoPanicFor) > 0 {
+				keepNP := false
+				for _, pr := range c.NoPanicFor {
+					if pr == cfg.ID {
+						keepNP = true
+					}
+				}
+				if !keepNP {
+					var kept []*Obligation
+					for _, o := range ur.Obls {
+						if o.Kind != "nopanic" {
+							kept = append(kept, o)
+						}
+					}
+					ur.Obls = kept
+				}
+			}
+			{
+				drop := map[string]bool{}
+				for _, e := range c.Ensures {
+					if len(e.Props) > 0 {
+						in := false
+						for _, pr := range e.Props {
+							if pr == cfg.ID {
+								in = true
+							}
+						}
+						if !in {
+							drop[e.Label] = true
+						}
+					}
+				}
+				if len(drop) > 0 {
+					var kept []*Obligation
+					for _, o := range ur.Obls {
+						if o.Kind == "post" && drop[o.Label] {
+							continue
+						}
+						kept = append(kept, o)
+					}
+					ur.Obls = kept
+				}
+			}
 			for _, o := range ur.Obls {
 				o.prog = p
 			}
